@@ -480,6 +480,32 @@ def plant_edge_allele(desc, yaml_path, which, name="82.001", salt=0):
     return name
 
 
+def plant_before_break_allele(desc, yaml_path, name="84.001", salt=0):
+    """add an allele defined by ONE functional substitution on the LAST base (transcription order) of the region that precedes the break
+    region of the database's left fusion, and rewrite the database file; returns (allele name, fusion name) or None.  That base
+    belongs to a region the fusion does NOT retain: region labels of region-border bases decide the copy number there."""
+    N = len(desc["refseq"])
+    F = next((a for a, v in desc["alleles"].items() if v["kind"] == "left_fusion"), None)
+    if F is None:
+        return None
+    brk = desc["alleles"][F]["brk"]
+    b0 = desc["builds"]["hg19"]
+    gs, ge = b0["regions"][brk][0]
+    first = gs if b0["strand"] == "+" else ge - 1
+    i = next((k for k in range(N) if _to_genome(b0, N, k, "A>C")[0] == first), None)
+    if i is None or i < 1 or any(abs(v[0] - (i - 1)) < 4 for v in desc["variants"]):
+        return None
+    i -= 1
+    ref = desc["refseq"][i]
+    sop = f"{ref}>{[c for c in 'ACGT' if c != ref][salt % 3]}"
+    desc["alleles"][name] = {"kind": "normal", "brk": None, "variants": [[i, sop, "-", "functional"]], "label": None,
+                             "major": name.split(".")[0], "functional": [[i, sop]]}
+    for b in desc["builds"].values():
+        b["alleles"][name] = [list(_to_genome(b, N, i, sop))]
+    open(yaml_path, "w").write(_yaml(desc))
+    return name, F
+
+
 def write_db(dir, rng, **opts):
     text, desc = generate(rng, **opts)
     path = os.path.join(dir, desc["name"].lower() + ".yml")
